@@ -18,5 +18,13 @@ func init() {
 	} {
 		props[id] = propInfo{Level: "exploration", Rule: richRule + nt, Assum: bubble}
 	}
+	gateRule := "episodes = generated operation sequences of the gated family (add / release one gated job / TunePool / Pause / Resume / cancel a pending job / Purge / Stop / Restart / bind another queue / let idle time pass; all worker kinds, in-memory and adapter-backed queues, concurrency 1-6, idle expiry on/off) with a bubble quiescent point after every operation, x stall plans (unplanned, every single-stall placement at the first K hits of each reached anchored site [all sites in thorough], sampled pairs); at every quiescent point the set of executing jobs, pending counts, status, idle-pool size and the goroutine census are compared for equality with a sequential reference model; distinct = distinct (event-order signature, stall plan); non-trivial = "
+	for id, nt := range map[string]string{
+		"C02": "two or more jobs executed together or a further queue was bound",
+		"C04": "jobs were pending while others executed (the model had to choose the next job)",
+		"C18": "a TunePool took effect or an idle-expiry trim was evaluated",
+	} {
+		props[id] = propInfo{Level: "exploration", Rule: gateRule + nt, Assum: bubble}
+	}
 	props["C06"] = propInfo{Level: "exploration", Rule: "episodes = generated client programs (producers, cancels, purge, 1-2 barrier callers) x stall plans (unplanned runs, every single-stall placement at the first K hits of each reached site, sampled pairs); non-trivial = a barrier call overlapped a job's start or finish, or parked behind cancelled/purged jobs; distinct = distinct (client-boundary event-order signature, stall plan)", Assum: bubble}
 }
